@@ -28,125 +28,75 @@ def _reg(ctx, name):
     raise AnchorMissing(f'registered function {name}')
 
 
-def _local_env(fn, params):
-    """Affine environment: each numeric parameter a variable; locals through int()/±const assignments."""
-    env = {p: Lin.var(p) for p in params}
-    for a in walk_local(fn):
-        if isinstance(a, ast.Assign) and len(a.targets) == 1 and isinstance(a.targets[0], ast.Name):
-            try:
-                env[a.targets[0].id + "'" if False else a.targets[0].id] = linear(a.value, dict(env))
-            except Unmodelled:
-                pass
-    return env
+def _text_models():
+    return {XLT + 'Text.cast': lambda v: v if isinstance(v, str) else str(v)}
 
 
-def _slices(fn):
-    return [s for s in walk_local(fn) if isinstance(s, ast.Subscript) and isinstance(s.slice, ast.Slice)]
+def _isinst17(ctx):
+    def isinst(val, refs):
+        refs = refs if isinstance(refs, tuple) else (refs,)
+        if isinstance(val, Ref):
+            return any(val.ref == r or r == 'builtin:Exception' for r in refs)
+        if any(r == 'builtin:list' for r in refs) and isinstance(val, list):
+            return True
+        if any(r == 'builtin:tuple' for r in refs) and isinstance(val, tuple):
+            return True
+        return False
+    return isinst
 
 
-def _lin_or_none(node, env):
-    if node is None:
-        return None
-    try:
-        return linear(node, env)
-    except Unmodelled:
-        return 'nonlinear'
+def _call_text(ctx, name, *args):
+    f = _reg(ctx, name)
+    p = func_params(f.node)
+    env = {}
+    vp = next((x for x in f.params if x.kind == 'varpos'), None)
+    if vp is not None:
+        env[vp.name] = tuple(args)
+    else:
+        for k, v in zip(p, args):
+            env[k] = v
+        for prm in f.params[len(args):]:
+            if prm.default is not None:
+                env[prm.name] = ctx.fold(prm.default, f.module)
+    it = Interp(ctx.a, f.module, env, isinstance_fn=_isinst17(ctx), call_models=_text_models(), inline_pkg=True, scope_fn=f.node)
+    out = it.run(f.node.body)
+    return f, out
+
+
+def _table(ctx, name, construct, cases, why):
+    wrong = []
+    f = _reg(ctx, name)
+    for args, want in cases:
+        try:
+            f, out = _call_text(ctx, name, *args)
+        except Unmodelled as exc:
+            raise Unmodelled(f'{name}{args!r}: {exc}')
+        got = out.value if out.end == 'return' else f'<{out.end} {out.value!r}>'
+        if got != want:
+            wrong.append((args, got, want))
+    ctx.expect(not wrong, f.node, construct,
+               (f'{name}{wrong[0][0]!r} gives {wrong[0][1]!r}, expected {wrong[0][2]!r}: ' + why) if wrong else '')
 
 
 def rule_1(ctx):
-    # LEFT
-    f = _reg(ctx, 'LEFT')
-    p = func_params(f.node)
-    sl = _slices(f.node)
-    ok = len(sl) == 1
-    if ok:
-        env = {p[1]: Lin.var('n')}
-        lo, hi = _lin_or_none(sl[0].slice.lower, env), _lin_or_none(sl[0].slice.upper, env)
-        ok = (lo is None or lo == Lin(0)) and hi == Lin.var('n') and sl[0].slice.step is None
-    ctx.expect(ok, f.node, 'LEFT = s[0:n]', 'LEFT does not take the first n characters s[0:n]')
-    # RIGHT
-    f = _reg(ctx, 'RIGHT')
-    p = func_params(f.node)
-    sl = _slices(f.node)
-    ok = False
-    why = 'RIGHT does not slice its text once'
-    if len(sl) == 1:
-        env = {p[1]: Lin.var('n'), 'L': Lin.var('L')}
-        s = sl[0].slice
-        lo_node = s.lower
-        # len(text) - n  form
-        def lenform(node):
-            try:
-                return linear(node, {p[1]: Lin.var('n')}, transparent_calls=('int', 'float'))
-            except Unmodelled:
-                if isinstance(node, ast.BinOp) and isinstance(node.op, ast.Sub) and isinstance(node.left, ast.Call) \
-                        and isinstance(node.left.func, ast.Name) and node.left.func.id == 'len':
-                    try:
-                        return Lin.var('L') - linear(node.right, {p[1]: Lin.var('n')})
-                    except Unmodelled:
-                        return 'nonlinear'
-                return 'nonlinear'
-        lo = lenform(lo_node) if lo_node is not None else None
-        if lo == Lin.var('L') - Lin.var('n') and s.upper is None:
-            ok = True
-        elif lo == -Lin.var('n'):
-            why = ('RIGHT slices s[-n:]: for n = 0 the lower bound -0 is 0 and the whole text is returned '
-                   '(RIGHT("abc",0) = "abc" instead of ""); the reference form is s[L-n:L]')
-            guard0 = any(isinstance(c.test, ast.Compare) and p[1] in names_in(c.test) for c in flow.path_conditions(sl[0])
-                         if c.kind in ('guard', 'if'))
-            ok = guard0
-        else:
-            why = f'RIGHT slices from `{ast.unparse(lo_node) if lo_node else None}`'
-    ctx.expect(ok, f.node, 'RIGHT = s[L-n:L]', why)
-    # MID
-    f = _reg(ctx, 'MID')
-    p = func_params(f.node)
-    sl = [s for s in _slices(f.node) if not isinstance(s._parent, ast.FormattedValue)]
-    env = _local_env(f.node, [p[1], p[2]])
-    ok = False
-    for s in sl:
-        lo, hi = _lin_or_none(s.slice.lower, env), _lin_or_none(s.slice.upper, env)
-        if lo == Lin.var(p[1]) - Lin(1) and hi == Lin.var(p[1]) - Lin(1) + Lin.var(p[2]):
-            ok = True
-    ctx.expect(ok, f.node, 'MID = s[p-1:p-1+k]', 'MID does not return s[p-1:p-1+k] for the 1-based start p and count k')
-    # REPLACE
-    f = _reg(ctx, 'REPLACE')
-    p = func_params(f.node)
-    content = [c for c in flow.calls_in(f.node) if isinstance(c.func, ast.Attribute) and c.func.attr in ('replace', 'sub')]
-    env = _local_env(f.node, [p[1], p[2]])
-    sl = _slices(f.node)
-    heads = [s for s in sl if s.slice.lower is None and _lin_or_none(s.slice.upper, env) == Lin.var(p[1]) - Lin(1)]
-    tails = [s for s in sl if s.slice.upper is None and _lin_or_none(s.slice.lower, env) == Lin.var(p[1]) - Lin(1) + Lin.var(p[2])]
-    positional = bool(heads) and bool(tails)
-    ctx.expect(positional and not content, f.node, 'REPLACE is positional: s[:p-1] + t + s[p-1+k:]',
-               'REPLACE cuts out s[p-1:p-1+k] and then calls str.replace with that substring: every occurrence of the substring is '
-               'replaced, not the characters at the given position (REPLACE("abab",1,2,"x") = "xx" instead of "xab")'
-               if content else 'REPLACE does not assemble s[:p-1] + new_text + s[p-1+k:]')
-    # FIND
-    f = _reg(ctx, 'FIND')
-    p = func_params(f.node)
-    idx = [c for c in flow.calls_in(f.node) if isinstance(c.func, ast.Attribute) and c.func.attr in ('index', 'find')]
-    ok = len(idx) == 1 and len(idx[0].args) == 2
-    if ok:
-        par = idx[0]._parent
-        ok = isinstance(par, ast.BinOp) and isinstance(par.op, ast.Add) and isinstance(par.right, ast.Constant) and par.right.value == 1
-        # the start handed to index() is p-1 for p >= 1
-        start = idx[0].args[1]
-        dec = [a for a in walk_local(f.node) if isinstance(a, ast.Assign) and isinstance(a.targets[0], ast.Name)
-               and isinstance(start, ast.Name) and a.targets[0].id == start.id and isinstance(a.value, ast.BinOp)
-               and isinstance(a.value.op, ast.Sub) and isinstance(a.value.right, ast.Constant) and a.value.right.value == 1]
-        ok = ok and bool(dec)
-        searched = ast.unparse(idx[0].func.value)
-        order_ok = names_in(idx[0].func.value) and names_in(idx[0].args[0])
-    ctx.expect(ok, f.node, 'FIND = within.index(find, p-1) + 1', 'FIND does not search from p-1 and return the 0-based index + 1')
-    if idx:
-        deps = flow.Deps(f.node)
-        recv = deps.params_reaching(idx[0].func.value)
-        needle = deps.params_reaching(idx[0].args[0])
-        ctx.expect(recv == {p[1]} and needle == {p[0]}, f.node, 'FIND searches find_text inside within_text',
-                   f'FIND searches {sorted(needle)} inside {sorted(recv)}: haystack and needle are swapped')
-        cs = any(isinstance(c.func, ast.Attribute) and c.func.attr in ('upper', 'lower', 'casefold') for c in flow.calls_in(f.node))
-        ctx.expect(not cs, f.node, 'FIND is case-sensitive', 'FIND folds case before searching')
+    """Index forms, decided on witness texts with distinct characters (so that every off-by-one is visible)."""
+    _table(ctx, 'LEFT', 'LEFT = s[0:n]', [(('abcdef', 2), 'ab'), (('abcdef', 0), ''), (('abcdef', 6), 'abcdef'), (('abcdef', 9), 'abcdef'), (('abcdef',), 'a')],
+           'LEFT takes the first n characters')
+    _table(ctx, 'RIGHT', 'RIGHT = s[L-n:L]', [(('abcdef', 2), 'ef'), (('abcdef', 6), 'abcdef'), (('abcdef', 9), 'abcdef'), (('abcdef',), 'f'), (('abcdef', 0), '')],
+           'RIGHT takes the last n characters; the slice s[-n:] returns the whole text for n = 0 (RIGHT("abc",0) = "abc" instead of "")')
+    _table(ctx, 'MID', 'MID = s[p-1:p-1+k]', [(('abcdef', 2, 3), 'bcd'), (('abcdef', 1, 2), 'ab'), (('abcdef', 5, 10), 'ef'), (('abcdef', 7, 2), ''), (('abcdef', 3, 0), '')],
+           'MID returns k characters starting at the 1-based position p')
+    _table(ctx, 'REPLACE', 'REPLACE is positional: s[:p-1] + t + s[p-1+k:]',
+           [(('abcdef', 3, 2, 'XY'), 'abXYef'), (('abcdef', 1, 0, 'X'), 'Xabcdef'), (('abcdef', 6, 5, 'Z'), 'abcdeZ'), (('abab', 1, 2, 'x'), 'xab'),
+            (('aaaa', 2, 1, 'b'), 'abaa')],
+           'REPLACE replaces the k characters at position p only; cutting the substring out and calling str.replace with it replaces every '
+           'occurrence of that substring (REPLACE("abab",1,2,"x") = "xx" instead of "xab")')
+    _table(ctx, 'FIND', 'FIND = within.index(find, p-1) + 1',
+           [(('b', 'abcabc', 1), 2), (('b', 'abcabc', 2), 2), (('b', 'abcabc', 3), 5), (('a', 'abcabc', 1), 1), (('c', 'abcabc', 6), 6), (('bc', 'abcabc', 3), 5),
+            (('abc', 'abc', 1), 1), (('b', 'abcabc'), 2)],
+           'FIND returns the 1-based position of the first occurrence at or after the 1-based start')
+    _table(ctx, 'FIND', 'FIND searches find_text inside within_text', [(('bc', 'abcd', 1), 2), (('d', 'abcd', 1), 4)], 'needle and haystack are swapped')
+    _table(ctx, 'FIND', 'FIND is case-sensitive', [(('B', 'abcB', 1), 4), (('a', 'Aa', 1), 2)], 'FIND folds case before searching')
     ctx.floor(7, 'index forms')
 
 
@@ -160,7 +110,7 @@ def _run(ctx, f, env):
         if isinstance(val, Ref):
             return any(val.ref == r or (r == 'builtin:Exception') for r in refs)
         return False
-    it = Interp(ctx.a, f.module, env, isinstance_fn=isinst, call_models={})
+    it = Interp(ctx.a, f.module, env, isinstance_fn=isinst, call_models={}, inline_pkg=True, scope_fn=f.node)
     return it.run(f.node.body)
 
 
@@ -289,28 +239,16 @@ def rule_3(ctx):
 
 
 def rule_4(ctx):
-    shapes = {
-        'UPPER': lambda r, p: ast.unparse(r.value) == f'str({p[0]}).upper()',
-        'LOWER': lambda r, p: ast.unparse(r.value) == f'str({p[0]}).lower()',
-        'LEN': lambda r, p: ast.unparse(r.value) == f'len(str({p[0]}))',
-        'EXACT': lambda r, p: ast.unparse(r.value) in (f'str({p[0]}) == str({p[1]})', f'str({p[1]}) == str({p[0]})'),
-        'TRIM': lambda r, p: ast.unparse(r.value).startswith(f'str({p[0]}).strip(') or 'split' in ast.unparse(r.value),
-    }
-    for name, pred in shapes.items():
-        f = _reg(ctx, name)
-        r = last_return(f.node)
-        ok = r is not None and pred(r, func_params(f.node))
-        ctx.expect(ok, f.node, f'{name} shape', f'{name} returns `{ast.unparse(r.value) if r else "?"}`')
-    f = _reg(ctx, 'CONCATENATE')
-    r = last_return(f.node)
-    p = func_params(f.node)
-    ok = r is not None and isinstance(r.value, ast.Call) and isinstance(r.value.func, ast.Name) and r.value.func.id == 'CONCAT'
-    if ok:
-        comp = r.value.args[0] if r.value.args else None
-        ok = isinstance(comp, (ast.ListComp, ast.GeneratorExp, ast.Starred, ast.Name)) and p[0] in names_in(comp) and not any(
-            isinstance(c, ast.Call) and isinstance(c.func, ast.Name) and c.func.id in ('sorted', 'reversed', 'set') for c in ast.walk(r.value))
-    ctx.expect(ok, f.node, 'CONCATENATE delegates to CONCAT in argument order', 'CONCATENATE does not hand its arguments to CONCAT in order')
-    ctx.floor(6, 'simple maps')
+    _table(ctx, 'UPPER', 'UPPER shape', [(('aBc1',), 'ABC1')], 'UPPER upper-cases every letter')
+    _table(ctx, 'LOWER', 'LOWER shape', [(('aBc1',), 'abc1')], 'LOWER lower-cases every letter')
+    _table(ctx, 'LEN', 'LEN shape', [(('abcd',), 4), (('',), 0), ((' a ',), 3)], 'LEN counts every character')
+    _table(ctx, 'EXACT', 'EXACT shape', [(('abc', 'abc'), True), (('abc', 'aBc'), False), (('a', 'a '), False)], 'EXACT is a case-sensitive comparison')
+    _table(ctx, 'TRIM', 'TRIM shape', [(('  ab  ',), 'ab'), (('ab',), 'ab')], 'TRIM removes leading and trailing blanks')
+    _table(ctx, 'CONCATENATE', 'CONCATENATE delegates to CONCAT in argument order', [(('a', 'b', 'c'), 'abc'), (('x',), 'x'), (('b', 'a'), 'ba')],
+           'CONCATENATE joins its arguments in the order they were written')
+    _table(ctx, 'CONCAT', 'CONCAT joins in argument order', [(('a', 'b', 'c'), 'abc'), (('b', 'a', 'b'), 'bab'), ((['a', 'b'], 'c'), 'abc')],
+           'CONCAT joins its (flattened) arguments in order, keeping duplicates')
+    ctx.floor(7, 'simple maps')
 
 
 RULES = [
